@@ -1425,6 +1425,7 @@ fn main() {
     let scripts = std::fs::File::open(&args[1]).expect("scripts");
     let out = std::fs::File::create(&args[2]).expect("trace");
     let sink = Sink::new(Box::new(std::io::BufWriter::new(out)));
+    sink.set_run_length(true);
     install_panic_hook();
     install_tracing();
     let wd = Watchdog::start(sink.clone(), 120);
